@@ -351,10 +351,14 @@ def case_with_defs(casefile, lineno):
 # findings / evidence / verdict
 
 def load_known():
-    p = os.path.join(VERIF, "known_findings.json")
-    if not os.path.exists(p):
-        return {"findings": [], "fixed": []}
-    return json.load(open(p))
+    out = {"findings": [], "fixed": []}
+    paths = [os.path.join(VERIF, "known_findings.json")] + sorted(glob.glob(os.path.join(VERIF, "known_findings.d", "*.json")))
+    for p in paths:
+        if os.path.exists(p):
+            d = json.load(open(p))
+            out["findings"] += d.get("findings", [])
+            out["fixed"] += d.get("fixed", [])
+    return out
 
 
 class Verdict:
